@@ -512,3 +512,12 @@ Example C01_decided_example :
   decode_tree (dec_scalar rt_pf rt_pt) print false None dx_env [82] dx_tree = Ok dx_msg /\
   dx_txt <> [].
 Proof. repeat split; try (vm_compute; reflexivity). discriminate. Qed.
+
+(* the decided statement over the decoder family's byte-level model on the same example: the Any payload
+   is stored in that family's canonical spelling (raw_dec), everything else comes back as it was *)
+Example C01_bytes_decided_example :
+  env_static_b dx_env = true /\ rep_root_b rt_inner print None dx_env 3 [82] dx_msg = true /\
+  exists m', CodecDec.decode_bytes inst_orc dx_env [82] dx_txt = Ok m' /\
+             msg_get 1 m' = msg_get 1 dx_msg /\ msg_get 2 m' = msg_get 2 dx_msg /\ msg_get 3 m' = msg_get 3 dx_msg /\
+             msg_get 4 m' = msg_get 4 dx_msg.
+Proof. split; [vm_compute; reflexivity|]. split; [vm_compute; reflexivity|]. eexists. split; [vm_compute; reflexivity|]. repeat split; reflexivity. Qed.
